@@ -39,12 +39,13 @@ VARIABLES l,       \* next record
           P,       \* lattice points (sequence) and
           UU,      \* ... as a set
           BX, ZN,  \* boxes / zones of a pairs run
+          ZV,      \* View of every zone
           LV,      \* leaves of a chains run: [z, reg]
           bnd,     \* boundary box of a unit run
           nxt,     \* expected k of the next record per kind
           cnt,     \* records of the run
           viol, drift, dev, stat
-vars == <<l, pc, mode, P, UU, BX, ZN, LV, bnd, nxt, cnt, viol, drift, dev, stat>>
+vars == <<l, pc, mode, P, UU, BX, ZN, ZV, LV, bnd, nxt, cnt, viol, drift, dev, stat>>
 
 Rec == TraceLog[l]
 
@@ -62,7 +63,7 @@ Stat0 == [boxes |-> 0, boxpairs |-> 0, muts |-> 0, zones |-> 0, zonepairs |-> 0,
 Nxt0 == [box |-> 1, row |-> 1, mut |-> 1, zone |-> 1, zrow |-> 1, other |-> 1]
 
 Init ==
-  /\ l = 1 /\ pc = "config" /\ mode = "" /\ P = <<>> /\ UU = {} /\ BX = <<>> /\ ZN = <<>> /\ LV = <<>>
+  /\ l = 1 /\ pc = "config" /\ mode = "" /\ P = <<>> /\ UU = {} /\ BX = <<>> /\ ZN = <<>> /\ ZV = <<>> /\ LV = <<>>
   /\ bnd = NullBox /\ nxt = Nxt0 /\ cnt = 0 /\ viol = {} /\ drift = {} /\ dev = {} /\ stat = Stat0
 
 PtSet(idx) == {P[i] : i \in ToSet(idx)}
@@ -74,6 +75,7 @@ TConfig ==
   /\ P' = Rec.pts /\ UU' = ToSet(Rec.pts)
   /\ BX' = (IF Rec.mode = "pairs" THEN Rec.boxes ELSE <<>>)
   /\ ZN' = (IF Rec.mode = "pairs" THEN Rec.zones ELSE <<>>)
+  /\ ZV' = (IF Rec.mode = "pairs" THEN [j \in DOMAIN Rec.zones |-> View(Rec.zones[j], ToSet(Rec.pts))] ELSE <<>>)
   /\ LV' = (IF Rec.mode = "chains" THEN Rec.leaves ELSE <<>>)
   /\ bnd' = (IF Rec.mode = "unit" THEN [lo |-> Rec.boundary.lo, hi |-> Rec.boundary.hi] ELSE NullBox)
   /\ nxt' = [Nxt0 EXCEPT !.zrow = Rec.first + 1]
@@ -103,7 +105,7 @@ TBox ==
   /\ nxt' = [nxt EXCEPT !.box = @ + 1]
   /\ stat' = [stat EXCEPT !.boxes = @ + 1]
   /\ cnt' = cnt + 1
-  /\ UNCHANGED <<pc, mode, P, UU, BX, ZN, LV, bnd, drift, dev>>
+  /\ UNCHANGED <<pc, mode, P, UU, BX, ZN, ZV, LV, bnd, drift, dev>>
 
 TBoxRow ==
   /\ pc = "run" /\ mode = "pairs" /\ Rec.e = "BoxRow" /\ Rec.k = nxt.row
@@ -124,7 +126,7 @@ TBoxRow ==
   /\ nxt' = [nxt EXCEPT !.row = @ + 1]
   /\ stat' = [stat EXCEPT !.boxpairs = @ + Len(BX)]
   /\ cnt' = cnt + 1
-  /\ UNCHANGED <<pc, mode, P, UU, BX, ZN, LV, bnd, dev>>
+  /\ UNCHANGED <<pc, mode, P, UU, BX, ZN, ZV, LV, bnd, dev>>
 
 MutViolations(b, o) ==
   LET h == IF o.bnd = "lo" THEN {p \in UU : p[o.ax] >= o.pos} ELSE {p \in UU : p[o.ax] <= o.pos} IN
@@ -143,7 +145,7 @@ TMut ==
   /\ nxt' = [nxt EXCEPT !.mut = @ + 1]
   /\ stat' = [stat EXCEPT !.muts = @ + Len(Rec.ops)]
   /\ cnt' = cnt + 1
-  /\ UNCHANGED <<pc, mode, P, UU, BX, ZN, LV, bnd, drift, dev>>
+  /\ UNCHANGED <<pc, mode, P, UU, BX, ZN, ZV, LV, bnd, drift, dev>>
 
 TSpecial ==
   /\ pc = "run" /\ mode = "pairs" /\ Rec.e = "Special"
@@ -152,7 +154,7 @@ TSpecial ==
         \cup Named(Rec.default = DefaultZone /\ Represents(Rec.default, {}, UU), "X06.DefaultZoneIsNothing")
         \cup Named(Rec.nullbox = NullBox /\ Rec.infbox = InfBox, "X06.NullAndInfiniteBoxes"))
   /\ cnt' = cnt + 1
-  /\ UNCHANGED <<pc, mode, P, UU, BX, ZN, LV, bnd, nxt, drift, dev, stat>>
+  /\ UNCHANGED <<pc, mode, P, UU, BX, ZN, ZV, LV, bnd, nxt, drift, dev, stat>>
 
 TZone ==
   /\ pc = "run" /\ mode = "pairs" /\ Rec.e = "Zone" /\ Rec.k = nxt.zone
@@ -163,24 +165,25 @@ TZone ==
   /\ nxt' = [nxt EXCEPT !.zone = @ + 1]
   /\ stat' = [stat EXCEPT !.zones = @ + 1]
   /\ cnt' = cnt + 1
-  /\ UNCHANGED <<pc, mode, P, UU, BX, ZN, LV, bnd, drift, dev>>
+  /\ UNCHANGED <<pc, mode, P, UU, BX, ZN, ZV, LV, bnd, drift, dev>>
 
 \* one call of calc_intersection / calc_union: violated clauses, named deviation, drift
-CallOutcome(op, a, b, r) ==
-  LET V == ZoneOpViolations(op, a, b, r, UU)
-      D == IF V = {} THEN {} ELSE ZoneOpDeviation(op, a, b, r, V) IN
+CallOutcomeV(op, va, vb, r) ==
+  LET V == ZoneOpViolationsV(op, va, vb, View(r, UU))
+      D == IF V = {} THEN {} ELSE ZoneOpDeviation(op, va.z, vb.z, r, V) IN
   [v |-> IF D = {} THEN V ELSE {},
    d |-> D,
-   f |-> IF V = {} /\ r # CodedOp(op, a, b, "coded") THEN {"X06.AsTranscribed"} ELSE {}]
+   f |-> IF V = {} /\ r # CodedOp(op, va.z, vb.z, "coded") THEN {"X06.AsTranscribed"} ELSE {}]
+CallOutcome(op, a, b, r) == CallOutcomeV(op, View(a, UU), View(b, UU), r)
 
 CountDev(outs, name) == Cardinality({i \in DOMAIN outs : name \in outs[i].d})
 
 TZoneRow ==
   /\ pc = "run" /\ mode = "pairs" /\ Rec.e = "ZoneRow" /\ Rec.k = nxt.zrow
   /\ Len(Rec.and) = Len(ZN) /\ Len(Rec.or) = Len(ZN)
-  /\ LET a == ZN[Rec.k]
-         oa == [j \in DOMAIN ZN |-> CallOutcome("and", a, ZN[j], Rec.and[j])]
-         oo == [j \in DOMAIN ZN |-> CallOutcome("or", a, ZN[j], Rec.or[j])] IN
+  /\ LET a == ZV[Rec.k]
+         oa == [j \in DOMAIN ZN |-> CallOutcomeV("and", a, ZV[j], Rec.and[j])]
+         oo == [j \in DOMAIN ZN |-> CallOutcomeV("or", a, ZV[j], Rec.or[j])] IN
      /\ viol' = Bump(viol, UNION {oa[j].v \cup oo[j].v : j \in DOMAIN ZN} \cup Exact(Rec))
      /\ dev' = Bump(dev, UNION {oa[j].d \cup oo[j].d : j \in DOMAIN ZN})
      /\ drift' = Bump(drift, UNION {oa[j].f \cup oo[j].f : j \in DOMAIN ZN})
@@ -189,7 +192,7 @@ TZoneRow ==
                              !.devswap = @ + CountDev(oo, "UnionMixedRolesSwapped")]
   /\ nxt' = [nxt EXCEPT !.zrow = @ + 1]
   /\ cnt' = cnt + 1
-  /\ UNCHANGED <<pc, mode, P, UU, BX, ZN, LV, bnd>>
+  /\ UNCHANGED <<pc, mode, P, UU, BX, ZN, ZV, LV, bnd>>
 
 TPair ==
   /\ pc = "run" /\ mode = "rand" /\ Rec.e = "Pair" /\ Rec.k = nxt.other
@@ -204,7 +207,7 @@ TPair ==
                              !.devswap = @ + (IF ok /\ oo.d # {} THEN 1 ELSE 0)]
   /\ nxt' = [nxt EXCEPT !.other = @ + 1]
   /\ cnt' = cnt + 1
-  /\ UNCHANGED <<pc, mode, P, UU, BX, ZN, LV, bnd>>
+  /\ UNCHANGED <<pc, mode, P, UU, BX, ZN, ZV, LV, bnd>>
 
 -----------------------------------------------------------------------------
 (* Chain: the fold.  acc = [R (exact region), taint (a named deviation so far), v, d, f (names),
@@ -252,7 +255,7 @@ TChain ==
                              !.devswap = @ + (IF "UnionMixedRolesSwapped" \in acc.d THEN 1 ELSE 0)]
   /\ nxt' = [nxt EXCEPT !.other = @ + 1]
   /\ cnt' = cnt + 1
-  /\ UNCHANGED <<pc, mode, P, UU, BX, ZN, LV, bnd>>
+  /\ UNCHANGED <<pc, mode, P, UU, BX, ZN, ZV, LV, bnd>>
 
 -----------------------------------------------------------------------------
 (* Clip: acc = [I, X (point sets of the boxes), R, taint, v, d, f] *)
@@ -288,7 +291,7 @@ TClip ==
                              !.devsphere = @ + (IF acc.d # {} THEN 1 ELSE 0)]
   /\ nxt' = [nxt EXCEPT !.other = @ + 1]
   /\ cnt' = cnt + 1
-  /\ UNCHANGED <<pc, mode, P, UU, BX, ZN, LV, bnd>>
+  /\ UNCHANGED <<pc, mode, P, UU, BX, ZN, ZV, LV, bnd>>
 
 -----------------------------------------------------------------------------
 (* Unit: one material volume v0 given as an object tree
@@ -340,7 +343,7 @@ TUnit ==
                                   !.devunit = @ + (IF isdev THEN 1 ELSE 0)]
   /\ nxt' = [nxt EXCEPT !.other = @ + 1]
   /\ cnt' = cnt + 1
-  /\ UNCHANGED <<pc, mode, P, UU, BX, ZN, LV, bnd, drift>>
+  /\ UNCHANGED <<pc, mode, P, UU, BX, ZN, ZV, LV, bnd, drift>>
 
 TClose ==
   /\ pc = "run" /\ Rec.e = "Close"
@@ -348,7 +351,7 @@ TClose ==
   /\ (mode = "pairs" /\ Rec.n > 0) =>
         (nxt.box \in {1, Len(BX) + 1} /\ nxt.row = nxt.box /\ nxt.mut = nxt.box /\ nxt.zone \in {1, Len(ZN) + 1})
   /\ pc' = "closed"
-  /\ UNCHANGED <<mode, P, UU, BX, ZN, LV, bnd, nxt, cnt, viol, drift, dev, stat>>
+  /\ UNCHANGED <<mode, P, UU, BX, ZN, ZV, LV, bnd, nxt, cnt, viol, drift, dev, stat>>
 
 Next ==
   /\ l <= N /\ l' = l + 1
